@@ -25,7 +25,7 @@ enum Color @mk { RED GREEN @mk BLUE True False }
 scalar Tag @mk
 input P @mk { a: Int @mk b: String = "x" c: [Int!] @mk }
 input Q { r: Int! @mk p: P d: Int! = 7 @mk l: [String!]! = ["id"] }
-input R { r: R x: Int = 1 }
+input R { r: R x: Int = 1 z: String = null }
 """
 
 BASE_VALUES = {
